@@ -58,11 +58,13 @@ def mirror_kinds(repo):
 
 def run(repo, R):
     R.rule("INPUTS", "the public wrapper uses its parameters as given: no path replaces one by a filtered/re-ordered/scaled/defaulted copy")
-    from ..flow import check_wrapper_inputs
+    R.rule("DISPATCH", "the wrapper assembles Cartesian, spherical, mixed and transformed results through the four assembly routes, same keywords on each")
+    from ..flow import check_wrapper_inputs, check_wrapper_dispatch
     for _w in ['gbasis.integrals.momentum.momentum_integral', 'gbasis.integrals.angular_momentum.angular_momentum_integral']:
         _wf = repo.func(_w)
         R.note_function(_wf.qualname)
         check_wrapper_inputs(repo, _wf, R)
+        check_wrapper_dispatch(repo, _wf, R, "DISPATCH")
     R.rule("HERM", "the kernels are (imaginary unit) x (real) and the symmetric fill mirrors blocks by the adjoint (conjugate transpose), never in place")
     R.rule("UNIT", "the scalar prefactor of both kernels is -i (operators -i grad and -i r x grad)")
     R.rule("D", "first-derivative table: D[1] = 2 alpha_a M[i+1] - i M[i-1]")
